@@ -33,6 +33,14 @@ let str_of_hex (s : string) : string =
 let cur_flags = ref []
 let dev_of mode = if mode = "n" then dev_of_ids [] else dev_of_ids !cur_flags
 
+let pre_n = lazy (parse_prelude (dev_of_ids []))
+let pre_c = ref None
+let prelude mode =
+  if mode = "n" then Lazy.force pre_n
+  else match !pre_c with
+    | Some p -> p
+    | None -> let p = parse_prelude (dev_of_ids !cur_flags) in pre_c := Some p; p
+
 let handle mode op args =
   let d = dev_of mode in
   match op, args with
@@ -48,6 +56,7 @@ let handle mode op args =
   | "fq", [fl; ind; a] -> out_bytes (dump_format_query d (mk_fopts (bytes_of_hex fl) (bytes_of_hex ind)) (bytes_of_hex a))
   | "fs", [fl; ind; bi; a] ->
       out_bytes (dump_format_schema d (mk_fopts (bytes_of_hex fl) (bytes_of_hex ind)) (str_of_hex bi = "1") (bytes_of_hex a))
+  | "load", srcs -> out_bytes (dump_load_with d (prelude mode) (List.map bytes_of_hex srcs))
   | _ -> "BADOP"
 
 let () =
